@@ -301,7 +301,7 @@ def run_impl_parallel(cases, procs=8, batch=50, timeout=120, mem_kb=None):
             results.update(r); culprits.extend(c)
     return results, culprits
 
-def run_impl_robust(cases, batch=300, timeout=60, env=None, mem_kb=None):
+def run_impl_robust(cases, batch=300, timeout=60, env=None, mem_kb=None, max_culprits=4):
     """Runs cases in batches with per-case flushing; when the harness hangs or dies, the first
     case without a result is the culprit and the run resumes after it.
     Returns (results dict, list of (case, 'hang'|'crash'))."""
@@ -329,7 +329,7 @@ def run_impl_robust(cases, batch=300, timeout=60, env=None, mem_kb=None):
             # generous limit (a batch can run out of time on a slow or busy machine without any case hanging)
             sus = missing[0]
             try:
-                p1 = subprocess.run([HARNESS + "/ugoh"], input=sus["line"] + "\n", capture_output=True, text=True, timeout=max(3 * timeout, 180), env=env,
+                p1 = subprocess.run([HARNESS + "/ugoh"], input=sus["line"] + "\n", capture_output=True, text=True, timeout=max(timeout, 180), env=env,
                                     preexec_fn=_limit_as(mem_kb) if mem_kb else None)
                 out1, how1 = p1.stdout, "crash"
             except subprocess.TimeoutExpired as e:
@@ -341,5 +341,6 @@ def run_impl_robust(cases, batch=300, timeout=60, env=None, mem_kb=None):
                 if i > 0 and ln[:i] == sus["id"]:
                     results[sus["id"]] = ln[i+1:]; ok1 = True
             if not ok1: culprits.append((sus, how1))
+            if len(culprits) >= max_culprits: break      # enough to report; every further one costs two time limits
             todo = missing[1:] + todo
     return results, culprits
